@@ -672,6 +672,28 @@ func c06Readers(c *Ctx) error {
 	}
 	c.P("Definition confirm_requires_bonded_or_unbonding : bool := %s.", c06Bool(bondGate))
 
+	// (e2) compass change: does skyway's EVMActivatedChain subscriber renew the open batches of the chain?
+	kf := FindFuncIn(files, "", "NewKeeper")
+	refresh := false
+	if kf != nil {
+		for _, ce := range Calls(kf.Body, "Subscribe") {
+			if len(Calls(ce, "setLatestCompassID")) == 0 {
+				continue
+			}
+			for _, name := range []string{"refreshOpenBatchCheckpoints"} {
+				rf := FindFuncIn(files, "Keeper", name)
+				if len(Calls(ce, name)) > 0 && rf != nil && len(Calls(rf.Body, "GetCheckpoint")) > 0 && len(Calls(rf.Body, "DeleteBatchConfirms")) > 0 &&
+					len(Calls(rf.Body, "GetOutgoingTxBatches")) > 0 && len(c06ScanCuts(c, rf)) <= 2 {
+					refresh = true
+				}
+			}
+		}
+	}
+	c.P("(* x/skyway/keeper: the EVMActivatedChain subscriber renews the checkpoint of the chain's open batches and deletes their")
+	c.P("   confirmations (information: the model's BRebody is that renewal; histories contain it only when this is true) *)")
+	c.P("Definition redeploy_refreshes_open_batches : bool := %s.", c06Bool(refresh))
+	c.Info("redeploy_refreshes_open_batches", refresh)
+
 	// (f) valset GetSigningKey: which fields of an account every key-returning exit has compared with the arguments
 	vf, err := c.Parse("x/valset/keeper/keeper.go")
 	if err != nil {
